@@ -79,14 +79,20 @@ Lemma np_modulo x y : nopanic (modulo x y).
 Proof. unfold modulo. np; first [apply np_ftrap | apply np_trap]. Qed.
 Lemma np_num1 fop dop v : nopanic (num1 fop dop v). Proof. unfold num1; np. Qed.
 
-Lemma np_sum_loop l : forall r, nopanic (sum_loop l r).
-Proof. induction l as [|v l IH]; intros r; cbn [sum_loop]; [reflexivity|]. destruct (to_decimal v); [apply IH|reflexivity]. Qed.
+Lemma np_sum_loop l : forall total special finite, nopanic (sum_loop l total special finite).
+Proof.
+  induction l as [|v l IH]; intros total special finite; cbn [sum_loop]; [reflexivity|].
+  destruct (to_decimal v); [|reflexivity]. cbv zeta. destruct (finite && is_fin d); apply IH.
+Qed.
 Lemma np_sum v : nopanic (sum v).
-Proof. unfold sum. destruct v; try reflexivity. apply np_bind; [apply np_sum_loop|intros; apply np_trap]. Qed.
+Proof.
+  unfold sum. destruct v; try reflexivity.
+  apply np_bind; [apply np_sum_loop|intros [[total special] finite] _; apply np_trap].
+Qed.
 Lemma np_avg v : nopanic (avg v).
 Proof.
   unfold avg. destruct v as [| | | |l| |]; try reflexivity. destruct l; [reflexivity|].
-  apply np_bind; [apply np_sum_loop|intros; apply np_trap].
+  apply np_bind; [apply np_sum_loop|intros [[total special] finite] _; apply np_trap].
 Qed.
 
 Lemma np_binop op l r : nopanic (binop_eval op l r).
@@ -200,6 +206,7 @@ Lemma np_find_from last a b c : nopanic (find_from last a b c).
 Proof.
   unfold find_from. apply np_bind; [apply np_str_arg|intros s _]. apply np_bind; [apply np_str_arg|intros p _].
   apply np_bind; [apply np_int_arg|intros i _].
+  destruct (is_nil s || is_nil p); [reflexivity|].
   destruct (start_offset s i) as [m|] eqn:E; [|reflexivity].
   apply start_offset_range in E.
   apply np_bind; [apply bslice_ok; lia|intros t _]. np.
@@ -214,6 +221,7 @@ Proof.
     apply np_bind; [apply np_to_int|intros [[x fnum] y] _]. np. }
   intros i' _.
   apply np_bind; [apply np_int_arg|intros j _].
+  destruct (is_nil s || is_nil p); [reflexivity|].
   destruct (start_offset s i') as [m|] eqn:E; [|reflexivity].
   apply start_offset_range in E.
   destruct (j <? 0); [reflexivity|].
